@@ -480,6 +480,15 @@ func (e *Engine) binop(st *State, op token.Token, xt types.Type, x, y Value, ins
 			case token.LEQ:
 				return ts.App(BoolSort, "fp.leq", a, b)
 			case token.GTR:
+				// float64(d)/c > 0 with d a 64-bit integer and c a positive constant <= 2^62 is d > 0
+				// (|float64(d)| >= 1 for d != 0, so the quotient cannot round to zero): keeps
+				// `duration.Seconds() > 0` out of the FloatingPoint solver.
+				if a.op == "fp.div RNE" && len(a.args) == 2 && a.args[0].op == "(_ to_fp 11 53) RNE" && len(a.args[0].args) == 1 &&
+					a.args[0].args[0].sort.K == SBV && a.args[0].args[0].sort.W == 64 && a.args[1].IsConst() && b.IsConst() && b.cv.Sign() == 0 {
+					if c := math.Float64frombits(a.args[1].cv.Uint64()); c >= 1 && c <= 1<<62 {
+						return ts.App(BoolSort, "bvsgt", a.args[0].args[0], ts.BVInt(64, 0))
+					}
+				}
 				return ts.App(BoolSort, "fp.gt", a, b)
 			case token.GEQ:
 				return ts.App(BoolSort, "fp.geq", a, b)
@@ -743,10 +752,17 @@ func (e *Engine) step(st *State) bool {
 			}
 		}
 		if live > 1 {
-			c := st.clone()
-			c.preemptLeft--
-			c.switchNow = true
-			e.work = append(e.work, c)
+			// a forced switch may hand the processor to any other live thread
+			for ti, t := range st.threads {
+				if ti == st.cur || t.done {
+					continue
+				}
+				c := st.clone()
+				c.preemptLeft--
+				c.switchNow = true
+				c.switchTo = ti + 1
+				e.work = append(e.work, c)
+			}
 		}
 	}
 	fr.ip++
@@ -1802,7 +1818,14 @@ func (e *Engine) runPath(st *State) {
 	for {
 		if st.switchNow {
 			st.switchNow = false
-			e.switchThread(st, false)
+			if st.switchTo > 0 {
+				st.threads[st.cur].fr = st.fr
+				st.cur = st.switchTo - 1
+				st.fr = st.threads[st.cur].fr
+			} else {
+				e.switchThread(st, false)
+			}
+			st.switchTo = 0
 		}
 		cont := e.step(st)
 		if p := e.takePending(); p != nil {
